@@ -658,8 +658,15 @@ def run(ctx):
             ctx.violation(bad, {"kind": "callback-registry"}, {"registry": [list(x) for x in sc]})
         if rmodel is not None and "|".join(outs) != rmodel[k]:
             ctx.corr_diff("callback registry trace differs", {"registry": [list(x) for x in sc][:30]}, "|".join(outs)[:400], rmodel[k][:400])
+    # the definition generated from ProtocolHandler.command against the real coroutine, script by script
+    from harness import cmdsrc
+    nontriv += cmdsrc.run_cases(ctx)
     ctx.cov["distinct_nontrivial"] = nontriv
-    ctx.cov["rule"] = (f"every sequence of 1..{ctx.n(2, 3)} commands x per-command behaviour {{reply, late reply, never, duplicate, callback before/after, send failure, wrong frame ID, invalidCommand, reply before the send "
+    ctx.cov["rule"] = ("source level: the definition generated from ProtocolHandler.command / _ezsp_frame (BV/Gen/SrcCmd.lean, run by the driver) against the real coroutine on the virtual loop for "
+                       f"{ctx.n(400, 3000)} scripts of what happens at its await points {{semaphore granted / caller cancelled while queued; frames received while send_data runs and its return / failure / cancellation; frames received during the bounded wait, then the deadline or cancellation}} "
+                       "with own replies, replies under other sequence numbers or frame IDs, callbacks, invalid-command answers, truncated and unknown frames, duplicates, entries left in _awaiting by others, unknown command names and missing arguments, versions 4..14: "
+                       "outcome, _seq, _awaiting, bytes sent, callbacks and the semaphore are compared; "
+                       f"model level: every sequence of 1..{ctx.n(2, 3)} commands x per-command behaviour {{reply, late reply, never, duplicate, callback before/after, send failure, wrong frame ID, invalidCommand, reply before the send "
                        "completes, cancel while waiting / while sending, foreign sequence numbers}} (exhaustive) on handlers v4/v7/v8/v14; random scripts with 2..4 queued callers of mixed priority, malformed frames, cancellations; "
                        "300-command soaks wrapping the sequence number; callback registry: every sequence of 1..5 (6 thorough) ops over {add (two colliding hashes), remove first/last, deliver} and random "
                        "sequences with colliding / negative / huge hashes, unknown ids and raising handlers, delivered through the real receive path; non-trivial = at least two callers or one non-reply behaviour, "
